@@ -2,7 +2,18 @@
 
 Engine G x T.  A pool case is one (dt, target_dt, length) grid point; inside it every record
 of that length (all words over {-1,0,2} for the short lengths, one smooth record for the
-longer ones) is pushed through the three entry points with even in {True, False}.
+longer ones, the smooth record scaled by 1e-9 and 1e+6) is pushed through the three entry points
+with even in {True, False}; plus, once per grid point, the argument containers / dtypes the
+functions accept, and call sequences on the same object / the same argument array.
+
+Grid-point families (all complete products of the stated menus, filtered by the property's domain
+"duration >= 2*max(dt, target)" with duration = npts*dt and the steps read as the decimal numbers
+the caller wrote, in exact rational arithmetic):
+  grid    menu dt x menu target x menu length
+  min     every (dt, target) of the menus with the SMALLEST length the domain allows and that length + 1
+  near    target = dt*q*(1+eps), q in {1, 2, 3, 1/2, 1/3}, eps in {+-1e-6, +-1e-7} ("nearly equal but different")
+  tscale  (dt, target) menus multiplied by 1e-6 and by 1e+3 (the step rule is scale-free in time)
+  int     dt and target given as python integers (seconds)
 
 Oracles (all written from the property text, none from the code):
   step rule       new_dt <= target (1e-12 rel) and dt/new_dt or new_dt/dt is an integer (1e-9);
@@ -13,7 +24,10 @@ Oracles (all written from the property text, none from the code):
                   the output must be the samples s(j*new_dt) of the (unique) band-limited periodic
                   signal s: checked for every word that is band-limited below both Nyquist
                   frequencies (trigonometric interpolant by a direct DFT sum) and for every on-grid
-                  harmonic (cos and sin) and pair combination below the new Nyquist frequency.
+                  harmonic (cos and sin) and pair combination below the new Nyquist frequency;
+  sequences       the result is a function of (record held NOW, dt, target, even): objects that held
+                  other records before / were queried before, A-B-A argument patterns, results
+                  overwritten by the caller, default options after explicit ones.
 """
 import itertools
 import math
@@ -22,55 +36,120 @@ import numpy as np
 
 from ..target import eqsig, time_step
 from ..result import Res
+from ..compare import frac
 
 SIG = (-1, 0, 2)
 DTS = (0.005, 0.01, 0.02, 0.025, 0.03, 0.04, 0.05, 0.07, 0.1, 0.2, 0.25, 0.3, 0.5, 1.0)
 EXTRA_TARGETS = (0.0123, 0.0333333, 0.29999999999999993, 0.30000000000000004)
 ADJACENT = (0.29999999999999993, 0.30000000000000004, 0.09999999999999999, 0.10000000000000002)
+NEAR_RATIOS = ((1, 1), (2, 1), (3, 1), (1, 2), (1, 3))          # target ~ dt * a / b
+NEAR_EPS = (-1e-6, -1e-7, 1e-7, 1e-6)
+TS_SMALL = ((5e-9, 1e-8, 3e-8, 1e-7), (5e-9, 1e-8, 2e-8, 3e-8, 1e-7, 1.23e-8))       # menus x 1e-6
+TS_LARGE = ((5.0, 10.0, 30.0, 100.0), (5.0, 10.0, 20.0, 30.0, 100.0, 12.3))          # menus x 1e+3
+INT_STEPS = ((1, 2, 3), (1, 2, 3, 4, 6))            # python ints for dt and target
+VALUE_SCALES = (1e-9, 1e6)
+OBJ_CLASSES = ('AccSignal', 'Signal')
 MENU = {
-    'quick': {'dts': DTS, 'targets': DTS + EXTRA_TARGETS, 'lens': (4, 5, 9, 12, 31), 'word_lens': (4, 5), 'pair_cap': 6},
+    'quick': {'dts': DTS, 'targets': DTS + EXTRA_TARGETS, 'lens': (2, 3, 4, 5, 9, 12, 31), 'word_lens': (2, 3, 4, 5),
+              'pair_cap': 6, 'near_dts': (0.005, 0.01, 0.07, 0.3, 1.0), 'side_lens': (4, 12)},
     'thorough': {'dts': DTS + (0.001, 0.0125, 2.0),
                  'targets': DTS + EXTRA_TARGETS + (0.001, 0.0125, 2.0, 0.015, 0.6, 0.09999999999999999,
                                                    0.10000000000000002),
-                 'lens': (4, 5, 6, 7, 9, 12, 16, 31, 64), 'word_lens': (4, 5, 6, 7), 'pair_cap': None},
+                 'lens': (2, 3, 4, 5, 6, 7, 9, 12, 16, 31, 64), 'word_lens': (2, 3, 4, 5, 6, 7), 'pair_cap': None,
+                 'near_dts': DTS, 'side_lens': (4, 5, 12, 31)},
 }
 _cfg = {}
 
 
 def in_domain(dt, tg, n):
-    return (n - 1) * dt >= 2 * max(dt, tg) * (1 - 1e-12)
+    """The property's domain: duration >= 2*max(dt, target), duration = npts*dt (the reading under which a record of
+    20 samples at 0.01 s lasts 0.2 s), the two steps taken as the decimal numbers the caller wrote (exact rationals:
+    20*0.01 >= 2*0.1 holds, whatever the binary representation of 0.01 and 0.1)."""
+    d, t = frac(dt), frac(tg)
+    return n * d >= 2 * max(d, t)
+
+
+def n_min(dt, tg):
+    """Smallest record length of the domain for this (dt, target)."""
+    d, t = frac(dt), frac(tg)
+    q = 2 * max(d, t) / d
+    return max(2, -((-q.numerator) // q.denominator))
 
 
 def build(tier, seed):
     m = MENU[tier]
     cases = []
+    seen = set()
+
+    def add(dt, tg, n, fam):
+        key = (repr(dt), repr(tg), n)         # 1 (int) and 1.0 are different arguments
+        if key in seen or not in_domain(dt, tg, n):
+            return
+        seen.add(key)
+        cases.append([dt, tg, n, tier, fam])
     for n in m['lens']:
         for dt in m['dts']:
             for tg in m['targets']:
-                if in_domain(dt, tg, n):
-                    cases.append([dt, tg, n, tier])
+                add(dt, tg, n, 'grid')
+    for dt in m['dts']:
+        for tg in m['targets']:
+            nm = n_min(dt, tg)
+            for n in (nm, nm + 1):
+                add(dt, tg, n, 'min')
+    for n in m['side_lens']:
+        for dt in m['near_dts']:
+            for a, b in NEAR_RATIOS:
+                for eps in NEAR_EPS:
+                    add(dt, dt * a / b * (1 + eps), n, 'near')
+        for fam, (dts, tgs) in (('tscale-small', TS_SMALL), ('tscale-large', TS_LARGE), ('int-steps', INT_STEPS)):
+            for dt in dts:
+                for tg in tgs:
+                    add(dt, tg, n, fam)
     return {
         'cases': cases,
-        'rule': 'every (dt, target) in menu x targets with (n-1)*dt >= 2*max(dt,target), n in %s; records: all words over '
-                '{-1,0,2} for n in %s, one smooth record otherwise; x even in {T,F} x {interp_array_to_approx_dt, '
-                'interp_to_approx_dt, resample_to_approx_dt}; Fourier family: every on-grid cos/sin harmonic and pair '
-                'combination strictly below both Nyquist frequencies%s; non-trivial = non-constant record whose step '
-                'actually changes' % (list(m['lens']), list(m['word_lens']),
+        'rule': 'grid points (dt, target, n) with n*dt >= 2*max(dt,target) (exact, decimal reading): menu dt x menu target x n in %s; '
+                '+ every (dt, target) of the menus with the smallest n of the domain and that n + 1; + target = dt*q*(1+eps), q in '
+                '{1,2,3,1/2,1/3}, eps in %s, dt in %s, n in %s; + menus scaled in time by 1e-6 / 1e+3 and integer-typed steps, same n.  Records: all words over '
+                '{-1,0,2} for n in %s, one smooth record otherwise, always the smooth record x %s; x even in {T,F} x '
+                '{interp_array_to_approx_dt, interp_to_approx_dt, resample_to_approx_dt}; per grid point and even: containers '
+                '{int64, int16 and uint8 with large steps, float32, list, tuple}; sequences on one object (held another record of another '
+                'length and was queried / had its lazy properties and deprecated statistics read; reset_values, add_constant, '
+                'reset to a record with the same length and end values, back again), A-B-A on the same argument arrays, returned '
+                'arrays overwritten by the caller, default options after explicit ones; Fourier family: every on-grid cos/sin '
+                'harmonic and pair combination strictly below both Nyquist frequencies%s; non-trivial = non-constant record whose step '
+                'actually changes' % (list(m['lens']), list(NEAR_EPS), list(m['near_dts']), list(m['side_lens']),
+                                      list(m['word_lens']), list(VALUE_SCALES),
                                       '' if m['pair_cap'] is None else
                                       ' (pairs among the %d lowest and %d highest harmonics for n > 12)'
                                       % (m['pair_cap'], m['pair_cap'])),
         'bounds': {'alphabet': SIG, 'dt': m['dts'], 'target_dt': m['targets'], 'lengths': m['lens'],
-                   'word_lengths': m['word_lens'], 'even': [True, False]},
+                   'word_lengths': m['word_lens'], 'even': [True, False], 'near_ratios': NEAR_RATIOS, 'near_eps': NEAR_EPS,
+                   'near_dt': m['near_dts'], 'near_and_time_scale_lengths': m['side_lens'],
+                   'time_scaled_menus': [TS_SMALL, TS_LARGE], 'integer_typed_steps': INT_STEPS, 'value_scales': VALUE_SCALES,
+                   'object_classes_in_sequences': OBJ_CLASSES,
+                   'containers': ['float64', 'int64', 'int16 x15000', 'uint8 x125', 'float32', 'list', 'tuple'],
+                   'previous_record_lengths': ['n+3', 'max(2,n-2)']},
         'required_classes': ['refinement', 'decimation', 'same-step', 'unchanged-step-below-2x', 'non-commensurate',
                              'rounding-adjacent-quotient', 'even-trimmed', 'even-natural', 'odd-length-output',
                              'array-entry', 'object-entry', 'fourier-entry', 'fourier-refine-exact',
                              'fourier-decimate-exact', 'fourier-nontile', 'fourier-word-exact',
-                             'fourier-word-not-bandlimited'],
-        'assumptions': ['duration of a record = (npts-1)*dt for the domain condition; npts*dt in the duration claim',
-                        'values outside {-1,0,2} only through the smooth records and the harmonic family',
+                             'fourier-word-not-bandlimited', 'minimum-duration-exactly', 'minimum-duration-exactly-decimation',
+                             'minimum-duration-plus-one-sample', 'two-sample-record', 'near-equal-steps', 'near-integer-quotient',
+                             'time-scale-small', 'time-scale-large', 'integer-typed-steps', 'value-scale-1e-09', 'value-scale-1e+06',
+                             'container-i64', 'container-i16', 'container-u8', 'container-f32', 'container-list',
+                             'container-tuple', 'object-history-longer-before', 'object-history-shorter-before', 'a-b-a',
+                             'returned-array-overwritten', 'default-after-explicit'],
+        'assumptions': ['duration of a record = npts*dt, both in the domain condition and in the duration claim; the domain '
+                        'condition is evaluated exactly with dt, target read as the decimal numbers written (20 samples at 0.01 s '
+                        'and target 0.1 s: duration exactly two target steps, inside the domain)',
+                        'values outside {-1,0,2} only through the smooth records (x 1, 1e-9, 1e+6), the container records and the '
+                        'harmonic family',
                         'dt, target only on the menus',
+                        'float32 records only for the two interpolation entry points (np.interp works in double precision; the '
+                        'Fourier path returns single precision for them on the unchanged tree)',
                         'Fourier exactness is asserted only where npts*dt/new_dt is an integer of the requested parity '
-                        '(otherwise no periodic resampling onto that step exists)'],
+                        '(otherwise no periodic resampling onto that step exists); on a re-used object / another container the '
+                        'Fourier result is compared with that of a fresh float64 object holding the same numbers'],
     }
 
 
@@ -251,27 +330,304 @@ def harmonic_family(n, nn, cap):
     return fam
 
 
+# ------------------------------------------------------------------------------ records, containers, histories
+def mixed(n):
+    return [SIG[(t * t + t // 2) % 3] for t in range(n)]
+
+
+def partner(rec):
+    """Another record with the same length and the same first / last value (n = 2: the reversed record)."""
+    if len(rec) <= 2:
+        return list(reversed(rec))
+    return [rec[0]] + [0.25 - 0.5 * v for v in rec[1:-1]] + [rec[-1]]
+
+
+def containers_for(n):
+    """(name, factory of the argument object, also for the Fourier path?)  The numbers of each container are what the
+    oracle sees (np.array(container, dtype=float)): narrow / unsigned integer types carry large steps."""
+    mx = mixed(n)
+    sm = smooth(n)
+    return [('i64', lambda: np.array(mx, dtype=np.int64), True),
+            ('i16', lambda: np.array([15000 * v for v in mx], dtype=np.int16), True),
+            ('u8', lambda: np.array([125 * abs(v) if t % 3 else 250 - 125 * abs(v) for t, v in enumerate(mx)], dtype=np.uint8), True),
+            ('f32', lambda: np.array(sm, dtype=np.float32), False),
+            ('list', lambda: [float(v) for v in sm], True),
+            ('tuple', lambda: tuple(int(v) for v in mx), True)]
+
+
+def exercise(s):
+    """Read the lazy properties and call the auxiliary / deprecated public methods that store results on the object.
+    Whether these succeed is not this property's business."""
+    for name in ('fa_spectrum', 'fa_freqs', 'smooth_fa_spectrum', 'velocity', 'displacement', 'pga', 'pgv', 'pgd'):
+        try:
+            getattr(s, name)
+        except Exception:
+            pass
+    for name in ('generate_displacement_and_velocity_series', 'generate_peak_values', 'generate_cumulative_stats',
+                 'generate_duration_stats'):
+        try:
+            getattr(s, name)()
+        except Exception:
+            pass
+
+
+def same_bits(a, b):
+    try:
+        a = np.asarray(a)
+        b = np.asarray(b)
+        return a.shape == b.shape and bool(np.array_equal(a, b))
+    except Exception:
+        return False
+
+
+def interp_pair(r, sub, res):
+    try:
+        vals, ndt = res
+        return True, vals, ndt
+    except Exception:
+        r.fail('interp.returns', sub, 'result is not a (values, dt) pair', observed=res)
+        return False, None, None
+
+
+def interp_obj(r, sub, obj):
+    """-> (values, dt) of the AccSignal returned by interp_to_approx_dt, or None"""
+    r.n_cmp += 1
+    if not isinstance(obj, eqsig.AccSignal):
+        r.fail('interp.object', sub, 'result is not an AccSignal', observed=type(obj).__name__)
+        return None
+    try:
+        vals, ndt, npts = obj.values, obj.dt, obj.npts
+    except Exception as e:
+        r.fail('interp.object', sub, 'cannot read values/dt/npts: %s' % e)
+        return None
+    r.expect('interp.object', sub, npts == len(vals), 'npts %r != number of values %d' % (npts, len(vals)))
+    return vals, ndt
+
+
+def resample_obj(r, sub, obj):
+    r.n_cmp += 1
+    if not isinstance(obj, eqsig.AccSignal):
+        r.fail('fourier.object', sub, 'result is not an AccSignal', observed=type(obj).__name__)
+        return None
+    try:
+        return obj.values, obj.dt, obj.npts
+    except Exception as e:
+        r.fail('fourier.object', sub, 'cannot read values/dt/npts: %s' % e)
+        return None
+
+
+def fresh_resample(x, dt, tg, even):
+    """Periodic resampling of the same numbers on a fresh float64 object (None if that fails: reported elsewhere)."""
+    try:
+        o = time_step.resample_to_approx_dt(eqsig.AccSignal(np.array(x, dtype=float), dt), target_dt=tg, even=even)
+        return np.array(o.values, dtype=float), float(o.dt)
+    except Exception:
+        return None
+
+
+def check_resample_like_fresh(r, sub, res, x, dt, tg, even):
+    n = len(x)
+    mode, out = check_fourier_basic(r, sub, n, dt, tg, even, res)
+    if out is None:
+        return
+    fr = fresh_resample(x, dt, tg, even)
+    if fr is None:
+        return
+    r.transitions += 1
+    scale = float(np.max(np.abs(x))) or 1.0
+    r.expect_close('fourier.function-of-record', sub, out, fr[0], rtol=1e-9, scale=max(scale, float(np.max(np.abs(fr[0])))),
+                   what='values vs those for a fresh float64 object holding the same numbers')
+    r.expect_close('fourier.function-of-record', sub, res[1], fr[1], rtol=1e-12, what='step vs fresh object')
+
+
+def run_containers(r, base, dt, tg, n, even):
+    for cname, make, fourier_too in containers_for(n):
+        r.cls('container-' + cname)
+        x = np.array(make(), dtype=float)
+        sub = dict(base, rec='container:' + cname, entry='array')
+        r.states += 1
+        arg = make()
+        ok, res = r.call('interp.returns', sub, time_step.interp_array_to_approx_dt, arg, dt, target_dt=tg, even=even)
+        r.expect('argument-unchanged', sub, same_bits(np.array(arg, dtype=float), x) and type(arg) is type(make()),
+                 'argument container modified', observed=arg, expected=x)
+        if ok:
+            ok, vals, ndt = interp_pair(r, sub, res)
+            if ok:
+                check_interp(r, 'interp', sub, x, dt, tg, even, vals, ndt)
+        sub = dict(base, rec='container:' + cname, entry='object')
+        r.states += 1
+        ok, obj = r.call('interp.returns', sub, lambda: time_step.interp_to_approx_dt(eqsig.AccSignal(make(), dt),
+                                                                                      target_dt=tg, even=even))
+        if ok:
+            got = interp_obj(r, sub, obj)
+            if got is not None:
+                check_interp(r, 'interp', sub, x, dt, tg, even, got[0], got[1])
+        if fourier_too:
+            sub = dict(base, rec='container:' + cname, entry='resample')
+            r.states += 1
+            ok, obj = r.call('fourier.returns', sub, lambda: time_step.resample_to_approx_dt(eqsig.AccSignal(make(), dt),
+                                                                                             target_dt=tg, even=even))
+            if ok:
+                res = resample_obj(r, sub, obj)
+                if res is not None:
+                    check_resample_like_fresh(r, sub, res, x, dt, tg, even)
+
+
+def run_sequences(r, base, dt, tg, n, even, rec_a):
+    """Call sequences.  Every result must be the one for the record held / passed NOW."""
+    A = np.array(rec_a, dtype=float)
+    B = np.array(partner(rec_a), dtype=float)
+    C_ADD = 5.0
+    # ---- array level: the same argument arrays, A-B-A, the first result overwritten by the caller before the third call
+    sub = dict(base, rec='seq', entry='array')
+    snapA = A.copy()
+    r.cls('a-b-a')
+    r.cls('returned-array-overwritten')
+    first = None
+    for step, arr in (('A', A), ('B', B), ('A-again', A)):
+        s2 = dict(sub, step=step)
+        r.states += 1
+        ok, res = r.call('interp.returns', s2, time_step.interp_array_to_approx_dt, arr, dt, target_dt=tg, even=even)
+        if not ok:
+            continue
+        ok, vals, ndt = interp_pair(r, s2, res)
+        if not ok:
+            continue
+        check_interp(r, 'interp', s2, arr.copy(), dt, tg, even, vals, ndt)
+        if step == 'A':
+            try:
+                first = (np.array(vals, copy=True), float(ndt))
+                vals[...] = 1e30          # the caller owns what it was given
+            except Exception:
+                first = None
+        elif step == 'A-again' and first is not None:
+            r.transitions += 1
+            r.expect('same-call-same-result', s2, same_bits(vals, first[0]) and float(ndt) == first[1],
+                     'third call (A, B, A; first result overwritten by the caller) differs from the first', observed=vals,
+                     expected=first[0])
+    r.expect('argument-unchanged', sub, same_bits(A, snapA), 'argument array modified', observed=A, expected=snapA)
+    # default options after explicit ones (target_dt=0.01, even=True are the documented defaults)
+    if in_domain(dt, 0.01, n):
+        r.cls('default-after-explicit')
+        s2 = dict(sub, step='defaults-after-explicit')
+        r.states += 1
+        ok, res = r.call('interp.returns', s2, time_step.interp_array_to_approx_dt, A, dt)
+        if ok:
+            ok, vals, ndt = interp_pair(r, s2, res)
+            if ok:
+                check_interp(r, 'interp', s2, A, dt, 0.01, True, vals, ndt)
+    # ---- object level, both object-taking functions: an object with a history
+    for fname, fn in (('object', time_step.interp_to_approx_dt), ('resample', time_step.resample_to_approx_dt)):
+        for plen, ocls in itertools.product(sorted(set([n + 3, max(2, n - 2)]) - set([n])), OBJ_CLASSES):
+            r.cls('object-history-longer-before' if plen > n else 'object-history-shorter-before')
+            sub = dict(base, rec='seq', entry=fname, prev_len=plen, cls=ocls)
+            try:
+                s = getattr(eqsig, ocls)(np.array(smooth(plen)), dt)
+                exercise(s)
+            except Exception as e:
+                r.fail('interp.returns' if fname == 'object' else 'fourier.returns', sub, 'cannot prepare the object: %s' % e)
+                continue
+            try:
+                fn(s, target_dt=tg, even=even)      # the previous record may lie outside the domain: not examined
+            except Exception:
+                pass
+            first = None
+            steps = (('reset_values(A)', lambda: s.reset_values(A.copy()), A),
+                     ('add_constant', lambda: s.add_constant(C_ADD), A + C_ADD),
+                     ('reset_values(B)', lambda: s.reset_values(B.copy()), B),
+                     ('reset_values(A)-again', lambda: s.reset_values(A.copy()), A),
+                     ('after-statistics', lambda: exercise(s), A),
+                     ('defaults-after-explicit', None, A))
+            for step, change, x in steps:
+                s2 = dict(sub, step=step)
+                pre = 'interp' if fname == 'object' else 'fourier'
+                tg2, even2 = tg, even
+                if change is None:
+                    if not in_domain(dt, 0.01, n):
+                        continue
+                    tg2, even2 = 0.01, True
+                else:
+                    ok, _ = r.call(pre + '.returns', s2, change)
+                    if not ok:
+                        break
+                r.states += 1
+                r.transitions += 1
+                if change is None:
+                    ok, obj = r.call(pre + '.returns', s2, fn, s)
+                else:
+                    ok, obj = r.call(pre + '.returns', s2, fn, s, target_dt=tg, even=even)
+                if not ok:
+                    continue
+                if fname == 'object':
+                    got = interp_obj(r, s2, obj)
+                    if got is None:
+                        continue
+                    check_interp(r, 'interp', s2, x, dt, tg2, even2, got[0], got[1])
+                else:
+                    got = resample_obj(r, s2, obj)
+                    if got is None:
+                        continue
+                    check_resample_like_fresh(r, s2, got, x, dt, tg2, even2)
+                if step == 'reset_values(A)':
+                    try:
+                        first = (np.array(got[0], copy=True), float(got[1]))
+                        got[0][...] = 1e30        # the caller owns the returned object
+                    except Exception:
+                        first = None
+                elif step == 'reset_values(A)-again' and first is not None:
+                    r.expect('same-call-same-result', s2, same_bits(got[0], first[0]) and float(got[1]) == first[1],
+                             'same record on the same object: result differs from the earlier one (which the caller had '
+                             'overwritten)', observed=got[0], expected=first[0])
+                # the query leaves the object's record alone
+                r.expect('argument-unchanged', s2, same_bits(s.values, x), 'the record held by the object changed',
+                         observed=s.values, expected=x)
+
+
 # ------------------------------------------------------------------------------ one grid point
 def run_case(case):
     r = Res()
-    dt, tg, n, tier = case
+    dt, tg, n, tier = case[:4]
+    fam = case[4] if len(case) > 4 else 'grid'
     m = MENU[tier]
     if dt == tg:
         r.cls('same-step')
     q = dt / tg if dt > tg else tg / dt
-    if abs(q - round(q)) > 1e-6:
+    if fam == 'near':
+        r.cls('near-equal-steps' if round(q) == 1 else 'near-integer-quotient')
+    elif abs(q - round(q)) > 1e-6:
         r.cls('non-commensurate')
     elif q != round(q) or tg in ADJACENT:
         r.cls('rounding-adjacent-quotient')
+    if fam.startswith('tscale'):
+        r.cls('time-scale-small' if fam == 'tscale-small' else 'time-scale-large')
+    if fam == 'int-steps':
+        r.cls('integer-typed-steps')
+    d_, t_ = frac(dt), frac(tg)
+    if n * d_ == 2 * max(d_, t_):
+        r.cls('minimum-duration-exactly')
+        if t_ > d_:
+            r.cls('minimum-duration-exactly-decimation')
+    elif n == n_min(dt, tg) + 1:
+        r.cls('minimum-duration-plus-one-sample')
+    if n == 2:
+        r.cls('two-sample-record')
     if n in m['word_lens']:
         records = [(list(w), list(w)) for w in itertools.product(SIG, repeat=n)]
+        records.append(('smooth', smooth(n)))
     else:
         records = [('smooth', smooth(n))]
+    for sc in VALUE_SCALES:
+        records.append(('smooth*%.0e' % sc, [sc * v for v in smooth(n)]))
     for even in (True, False):
         fam_done = False
+        base0 = {'dt': dt, 'target': tg, 'n': n, 'even': even}
+        run_containers(r, base0, dt, tg, n, even)
+        run_sequences(r, base0, dt, tg, n, even, smooth(n))
         for label, rec in records:
             x = np.array(rec, dtype=float)
             nonconst = len(set(rec)) > 1
+            if isinstance(label, str) and '*' in label:
+                r.cls('value-scale-' + label.split('*')[1])
             base = {'dt': dt, 'target': tg, 'n': n, 'even': even, 'rec': label}
             # ---- array level
             sub = dict(base, entry='array')
@@ -281,11 +637,8 @@ def run_case(case):
                              even=even)
             mode = None
             if ok:
-                try:
-                    vals, ndt = res
-                except Exception:
-                    r.fail('interp.returns', sub, 'result is not a (values, dt) pair', observed=res)
-                else:
+                ok, vals, ndt = interp_pair(r, sub, res)
+                if ok:
                     mode = check_interp(r, 'interp', sub, x, dt, tg, even, vals, ndt)
                     if mode is not None:
                         kind, k = mode
@@ -308,18 +661,9 @@ def run_case(case):
                 return time_step.interp_to_approx_dt(eqsig.AccSignal(x.copy(), dt), target_dt=tg, even=even)
             ok, obj = r.call('interp.returns', sub, run_obj)
             if ok:
-                r.n_cmp += 1
-                if not isinstance(obj, eqsig.AccSignal):
-                    r.fail('interp.object', sub, 'result is not an AccSignal', observed=type(obj).__name__)
-                else:
-                    try:
-                        vals, ndt, npts = obj.values, obj.dt, obj.npts
-                    except Exception as e:
-                        r.fail('interp.object', sub, 'cannot read values/dt/npts: %s' % e)
-                    else:
-                        check_interp(r, 'interp', sub, x, dt, tg, even, vals, ndt)
-                        r.expect('interp.object', sub, npts == len(vals), 'npts %r != number of values %d'
-                                 % (npts, len(vals)))
+                got = interp_obj(r, sub, obj)
+                if got is not None:
+                    check_interp(r, 'interp', sub, x, dt, tg, even, got[0], got[1])
             # ---- periodic resampling of the record itself
             sub = dict(base, entry='resample')
             r.states += 1
@@ -331,7 +675,7 @@ def run_case(case):
                 nn = tile_points(n, fmode, even) if fmode is not None else None
                 if fmode is not None and nn is None:
                     r.cls('fourier-nontile')
-                if nn is not None:
+                if nn is not None and out is not None:
                     coef = dft_coeffs(rec)
                     scale = max(abs(v) for v in rec) or 1.0
                     kmax = (min(n, nn) - 1) // 2
@@ -390,8 +734,14 @@ def snippet(case, v):
             "sub = %r\ndt, target, n, even = sub['dt'], sub['target'], sub['n'], sub['even']\n"
             "rec = sub.get('rec')\n"
             "x = np.array(rec if isinstance(rec, list) else [3*math.cos(1.3*j) - 1 + 0.1*j for j in range(n)], float)\n"
+            "if isinstance(rec, str) and '*' in rec: x = x * float(rec.split('*')[1])\n"
             "# harmonic cases ('sig' in sub): x = cos/sin(2*pi*k*arange(n)/n) as labelled\n"
+            "# rec 'container:<type>': the mixed {-1,0,2} pattern (x15000 as int16, x125 as uint8) / the smooth record in that container\n"
             "print(ts.interp_array_to_approx_dt(x, dt, target_dt=target, even=even))\n"
             "a = ts.interp_to_approx_dt(eqsig.AccSignal(x, dt), target_dt=target, even=even); print(a.dt, a.values)\n"
             "b = ts.resample_to_approx_dt(eqsig.AccSignal(x, dt), target_dt=target, even=even); print(b.dt, b.values)\n"
+            "if 'step' in sub:   # call sequence on one object: another record before, then this one\n"
+            "    s = eqsig.AccSignal(np.array([3*math.cos(1.3*j) - 1 + 0.1*j for j in range(sub.get('prev_len', n + 3))]), dt)\n"
+            "    ts.interp_to_approx_dt(s, target_dt=target, even=even); s.reset_values(x)\n"
+            "    a = ts.interp_to_approx_dt(s, target_dt=target, even=even); print('re-used object:', a.dt, a.values)\n"
             % (v.get('sub'),))
